@@ -19,6 +19,14 @@ def gen_lines(rng, thorough):
     return lines
 
 
+def vec_lines(rng):
+    out = []
+    for how in ('move', 'copy', 'assign'):
+        for (na, nb) in [(3, 5), (8, 2), (0, 4), (6, 6), (rng.randint(1, 10), rng.randint(1, 10))]:
+            out.append('v %s %d 0 %d %d -1 none' % (how, 8 * (max(na, nb) * 3 + 4), na, nb))
+    return out
+
+
 def oracle(line):
     """C11 on the implementation line alone: every piece inside [sizeof T, sizeof T + cap), aligned, disjoint; release = allocation"""
     lhs, rest = line.split(' =', 1)
@@ -71,7 +79,7 @@ def run(ctx):
         rexe = ctx.replay_exe()
     except build.BuildError as e:
         ctx.tie_broken.append('replay driver: ' + str(e)[:300]); rexe = None
-    lines = gen_lines(ctx.rng, thorough)
+    lines = gen_lines(ctx.rng, thorough) + vec_lines(ctx.rng)
     tot = {}; n = 0
     for c in ['base', 'dbg8']:
         exe = build.build_harness('joint', c, ['h_joint.cpp'])
@@ -83,6 +91,16 @@ def run(ctx):
                 nxt = lines[len(out.stdout.strip().split('\n'))] if len(out.stdout.strip().split('\n')) < len(lines) else ''
                 ctx.violation('crash/%s' % c, 'C11 fails on the implementation: crash (exit %d) while running: %s' % (out.returncode, nxt), dict(harness='h_joint.cpp', config=c, input=nxt, after=last))
         for ln in out.stdout.split('\n'):
+            if ln.startswith('v ') and ' =' in ln:
+                n += 1
+                kvv = dict(x.split('=') for x in ln.split(' =', 1)[1].split() if '=' in x and not x.startswith('|'))
+                whyv = None
+                if kvv.get('a_inside') != '1' or kvv.get('b_inside') != '1':
+                    whyv = 'after a container %s between two joint objects the elements of a container lie outside its own object\'s joint memory (a_inside=%s b_inside=%s)' % (ln.split()[1], kvv.get('a_inside'), kvv.get('b_inside'))
+                elif kvv.get('content') != '1':
+                    whyv = 'container content wrong after %s between joint objects' % ln.split()[1]
+                if whyv and len(ctx.violations) < 3:
+                    ctx.violation('%s/%s' % (ln.split(' =')[0], c), 'C11 fails on the implementation: %s (%s)' % (whyv, ln.split(' =')[0]), dict(harness='h_joint.cpp', config=c, input=ln.split(' =')[0], output=ln))
             if ln.startswith('j ') and ' =' in ln:
                 n += 1
                 why = oracle(ln)
